@@ -3,7 +3,7 @@
 under /verif/seeded and run its property's check against it (scratch worktree)."""
 import re, subprocess, sys
 from pathlib import Path
-skip = {("C02", "b"), ("C03", "a"), ("C08", "a")}
+skip = {("C02", "b"), ("C03", "a"), ("C08", "a"), ("C04", "b"), ("C14", "e")}
 RELATED = {"C01": ["C09", "C10", "C17"], "C02": ["C09"], "C03": ["C10"], "C04": ["C07", "C09", "C10"],
            "C05": ["C09", "C10", "C17"], "C06": ["C07"], "C07": ["C15", "C06"], "C08": ["C20", "C13"],
            "C09": ["C12", "C02"], "C10": ["C03"], "C11": ["C02", "C05"], "C12": ["C13"], "C13": ["C12"],
